@@ -188,7 +188,7 @@ def main():
                 rep.failures += rep2.failures
                 rep.evaluations += rep2.evaluations
                 rep.nontrivial |= rep2.nontrivial
-            n, err = ctx.model.kernel_crosscheck(limit=300 if tier == "quick" else 1500)
+            n, err = ctx.model.kernel_crosscheck(limit=100 if tier == "quick" else 600)
             rep.kernel_checked = n
             if err:
                 broken.append(("extraction-vs-kernel", err))
